@@ -18,6 +18,8 @@ def record(cases):
     for c in cases:
         g = [list(e) for e in c["g"]]
         ev.extend(rc.path_events(3, g, 0))
+        if (len(g) + sum(e[2] for e in g)) % 4 == 0:
+            ev.extend(rc.path_events_edited(3, g, 0))
     return len(cases), [], set(), ev
 
 
@@ -28,6 +30,8 @@ def _rand(args):
     for _ in range(count):
         n, g = rc.random_graph(rnd)
         ev.extend(rc.path_events(n, g, 0))
+        if rnd.random() < 0.3:
+            ev.extend(rc.path_events_edited(n, g, 0))
     return ev
 
 
